@@ -1292,7 +1292,7 @@ package keyvalue
 //@   ensures "dest-is-dir" [C01 C03 C05] implies(isMem(fs) && rnValid(oldname, newname) && old(kvHas(fs, oldname)) && old(kvHas(fs, newname)) && old(memIsDir(fs, newname)) && !(oldname == newname && !old(memIsDir(fs, oldname))),
 //@                     linkErr(err, oldname, newname) && errIs(err, hackpadfs.ErrExist) && memSame(fs))
 //@   ensures "dir-onto-existing" [C01 C03 C05] implies(isMem(fs) && rnValid(oldname, newname) && oldname != "." && old(rnSrcDir(fs, oldname)) && old(kvHas(fs, newname)),
-//@                     linkErr(err, oldname, newname) && errIs(err, hackpadfs.ErrExist) && memSame(fs))
+//@                     linkErr(err, oldname, newname) && memSame(fs) && ite(old(memIsDir(fs, newname)), errIs(err, hackpadfs.ErrExist), errIs(err, hackpadfs.ErrNotDir)))   // as os.Rename: a directory cannot replace a regular file (ENOTDIR)
 //@   ensures "into-subtree" [C01 C03 C05] implies(isMem(fs) && rnValid(oldname, newname) && oldname != "." && old(rnSrcDir(fs, oldname)) && !old(kvHas(fs, newname)) && hasPrefix(newname, oldname + "/"),
 //@                     linkErr(err, oldname, newname) && errIs(err, hackpadfs.ErrInvalid) && memSame(fs))
 //@   ensures "no-parent" [C01 C03 C05] implies(isMem(fs) && rnValid(oldname, newname) && oldname != "." && old(kvHas(fs, oldname)) && oldname != newname && !old(kvHas(fs, newname)) && !hasPrefix(newname, oldname + "/") && !old(kvHas(fs, pdir(newname))),
